@@ -34,7 +34,9 @@ Data(v) == [k |-> "data", v |-> v]
 Top(c)  == c.stk[Len(c.stk)]
 Pop(c)  == SubSeq(c.stk, 1, Len(c.stk) - 1)
 
-AtBrk(prog, c) == prog[c.i].op = "brk"
+(* "fail" = an instruction with a failing `.assert` in front of it: the runner evaluates the assertion before the instruction *)
+(* and ends the test there (FAILED), exactly as `brk` ends it (ok)                                                          *)
+AtBrk(prog, c) == prog[c.i].op \in {"brk", "fail"}
 (* rts/pla on a stack whose top is not what they expect: outside the programs we generate; the machine sticks *)
 Stuck(prog, c) == \/ prog[c.i].op = "rts" /\ (c.stk = <<>> \/ Top(c).k # "ret")
                   \/ prog[c.i].op = "pla" /\ (c.stk = <<>> \/ Top(c).k # "data")
